@@ -11,6 +11,7 @@ whole reader on damaged files are compared with the implementation's by the corr
 (`ct.read`), in debug and release builds.
 -/
 import JubakoModel.Model.Container
+import JubakoModel.Lemmas.DamageFile
 
 namespace Jubako
 
@@ -169,5 +170,79 @@ theorem c06_fsLocate_no_crash (fs : FS) (u : Bytes) (loc : String) :
 example : (blindOpen []).isValueOrError = true ∧ (blindOpen []).isOk = false := by decide
 example : (blindOpen (List.replicate 59 7)).isOk = false := by decide
 example : (blindOpen (List.replicate 63 0)).isValueOrError = true := c06_blindOpen_no_crash _
+
+/-! ### File level: every read of a damaged copy of a written pack ends with a value or an error
+
+Damaged copies (`BlocksAgree`, Lemmas/Damage.lean) include — with no side condition — every
+truncation, every extension with garbage and every alteration within 4 consecutive bytes.  The
+reader model contains the panic sites of the Rust reader that sit *behind* a CRC (unchecked
+subtractions on stored offsets, `todo!()` on unknown kinds, index out of bounds …); the theorems
+show none of them is reachable from a damaged copy of a file the creator wrote: the run on the
+damaged copy follows the run on the original block for block until a block fails its check. -/
+
+/-- **Directory pack**: reading any stored entry out of any damaged copy never crashes -/
+theorem c06_file_directory_no_crash (H : Bytes → Bytes) (vendor uuid freeData : Bytes) (d : DirIn)
+    (hwf : d.WF) (hl : d.Limits H vendor uuid freeData) (g : Bytes)
+    (hD : BlocksAgree (dirPackWrite H vendor uuid freeData d) g) (i : Nat) (hi : i < d.entries.length) :
+    (dirGetEntry g 0 i).isValueOrError = true := by
+  rcases dirGetEntry_damaged H vendor uuid freeData d hwf hl g hD i hi with h | ⟨k, h⟩ <;> rw [h] <;> rfl
+
+/-- … in particular out of the file truncated at any length … -/
+theorem c06_file_directory_truncated (H : Bytes → Bytes) (vendor uuid freeData : Bytes) (d : DirIn)
+    (hwf : d.WF) (hl : d.Limits H vendor uuid freeData) (n : Nat) (i : Nat) (hi : i < d.entries.length) :
+    (dirGetEntry ((dirPackWrite H vendor uuid freeData d).take n) 0 i).isValueOrError = true :=
+  c06_file_directory_no_crash H vendor uuid freeData d hwf hl _ (blocksAgree_take _ n) i hi
+
+/-- … extended with any garbage … -/
+theorem c06_file_directory_extended (H : Bytes → Bytes) (vendor uuid freeData : Bytes) (d : DirIn)
+    (hwf : d.WF) (hl : d.Limits H vendor uuid freeData) (junk : Bytes) (i : Nat) (hi : i < d.entries.length) :
+    (dirGetEntry (dirPackWrite H vendor uuid freeData d ++ junk) 0 i).isValueOrError = true :=
+  c06_file_directory_no_crash H vendor uuid freeData d hwf hl _ (blocksAgree_append _ junk) i hi
+
+/-- … or with any one byte overwritten -/
+theorem c06_file_directory_single_byte (H : Bytes → Bytes) (vendor uuid freeData : Bytes) (d : DirIn)
+    (hwf : d.WF) (hl : d.Limits H vendor uuid freeData) (pos : Nat) (b : UInt8) (i : Nat)
+    (hi : i < d.entries.length) :
+    (dirGetEntry ((dirPackWrite H vendor uuid freeData d).set pos b) 0 i).isValueOrError = true := by
+  apply c06_file_directory_no_crash H vendor uuid freeData d hwf hl _ _ i hi
+  apply blocksAgree_window4 _ _ pos
+  intro k hk
+  rw [List.getElem?_set_ne (by omega)]
+
+/-- **Content pack**: reading any content id — stored or past the end — out of any damaged copy
+    never crashes, whatever the decoder delivers for a damaged compressed payload (repaired decoder
+    protocol, D11: an error or a short output reaches the reader as an I/O error) -/
+theorem c06_file_content_no_crash (H : Bytes → Bytes) (codec : Codec) (hcodec : codec.Sound)
+    (hbyte : codec.byte ≤ 3) (m : ContentPackMeta) (hm : m.WF)
+    (items : List Item) (arrival : List Cluster)
+    (hp : arrival.Perm ((Creator.init.addAll items).finalize).1)
+    (hcomp : codec.byte = 0 → ∀ it ∈ items, it.comp = false)
+    (hcount : items.length < 2 ^ 32) (hncl : arrival.length ≤ 2 ^ 20)
+    (hdata : totalSize items < 2 ^ 64)
+    (hsize : (contentPackWrite H codec m arrival ((Creator.init.addAll items).finalize).2).length < 2 ^ 48)
+    (g : Bytes)
+    (hD : BlocksAgree (contentPackWrite H codec m arrival ((Creator.init.addAll items).finalize).2) g)
+    (i : Nat) : (contentGet codec.decompress' g i).isValueOrError = true := by
+  by_cases hi : i < items.length
+  · rcases contentGet_damaged H codec hcodec hbyte m hm items arrival hp hcomp hcount hncl hdata hsize g hD i hi
+      with ⟨b, h, _⟩ | ⟨k, h⟩ <;> rw [h] <;> rfl
+  · rcases contentGet_damaged_none H codec m hm items arrival hcount hncl hsize g hD i (by omega)
+      with h | ⟨k, h⟩ <;> rw [h] <;> rfl
+
+/-- the same for any damaged copy of any file on which the manifest reader succeeds -/
+theorem c06_manifest_no_crash (f g : Bytes) (hD : BlocksAgree f g)
+    (v : PackHeader × ManifestHeader × List PackInfo) (hf : manifestOpen f = .ok v) :
+    (manifestOpen g).isValueOrError = true :=
+  (manifestOpen_follows hD).no_crash v hf
+
+/-- non-vacuity: the example content pack of Lemmas/ContentFile.lean truncated at any length -/
+example (n i : Nat) :
+    (contentGet ContentFileExample.codec.decompress'
+      ((contentPackWrite ContentFileExample.hash ContentFileExample.codec ContentFileExample.pmeta
+        ContentFileExample.arrival ((Creator.init.addAll ContentFileExample.items).finalize).2).take n)
+      i).isValueOrError = true :=
+  c06_file_content_no_crash _ _ ContentFileExample.codec_sound (by decide) _ ContentFileExample.pmeta_wf _ _
+    ContentFileExample.arrival_perm (by decide) (by decide) (by decide) (by decide)
+    ContentFileExample.size_ok _ (blocksAgree_take _ n) i
 
 end Jubako
